@@ -119,6 +119,28 @@ impl<'a> std::fmt::Display for Disp<'a> {
     }
 }
 
+/// the same text written in several fragments (what a composite `Display` impl, or `write!` with arguments, does):
+/// one character at a time, and in three pieces
+struct DispChars<'a>(&'a str);
+impl<'a> std::fmt::Display for DispChars<'a> {
+    fn fmt(&self, f: &mut std::fmt::Formatter) -> std::fmt::Result {
+        let mut buf = [0u8; 4];
+        for c in self.0.chars() {
+            f.write_str(c.encode_utf8(&mut buf))?;
+        }
+        Ok(())
+    }
+}
+struct DispThirds<'a>(&'a str);
+impl<'a> std::fmt::Display for DispThirds<'a> {
+    fn fmt(&self, f: &mut std::fmt::Formatter) -> std::fmt::Result {
+        let s = self.0;
+        let cut = |at: usize| (at..=s.len()).find(|i| s.is_char_boundary(*i)).unwrap_or(s.len());
+        let (a, b) = (cut(s.len() / 3), cut(2 * s.len() / 3));
+        write!(f, "{}{}{}", &s[..a], &s[a..b], &s[b..])
+    }
+}
+
 fn parse_tid(bytes: &[u8]) -> String {
     let mut v = Verdict::new();
     v.add("try_from_hex_slice", Out::of_result(|| TraceId::try_from_hex_slice(bytes).map(|t| t.to_u128())));
@@ -126,6 +148,8 @@ fn parse_tid(bytes: &[u8]) -> String {
         v.add("from_str", Out::of_result(|| s.parse::<TraceId>().map(|t| t.to_u128())));
         v.add("try_from_hex", Out::of_result(|| TraceId::try_from_hex(s).map(|t| t.to_u128())));
         v.add("try_from_hex(Display)", Out::of_result(|| TraceId::try_from_hex(Disp(s)).map(|t| t.to_u128())));
+        v.add("try_from_hex(Display by chars)", Out::of_result(|| TraceId::try_from_hex(DispChars(s)).map(|t| t.to_u128())));
+        v.add("try_from_hex(Display in thirds)", Out::of_result(|| TraceId::try_from_hex(DispThirds(s)).map(|t| t.to_u128())));
         v.add("cast(str)", Out::of_option(|| Value::from(s).cast::<TraceId>().map(|t| t.to_u128())));
         let d = Disp(s);
         v.add("cast(display)", Out::of_option(|| Value::from_display(&d).cast::<TraceId>().map(|t| t.to_u128())));
@@ -147,6 +171,8 @@ fn parse_sid(bytes: &[u8]) -> String {
         v.add("from_str", Out::of_result(|| s.parse::<SpanId>().map(|t| t.to_u64())));
         v.add("try_from_hex", Out::of_result(|| SpanId::try_from_hex(s).map(|t| t.to_u64())));
         v.add("try_from_hex(Display)", Out::of_result(|| SpanId::try_from_hex(Disp(s)).map(|t| t.to_u64())));
+        v.add("try_from_hex(Display by chars)", Out::of_result(|| SpanId::try_from_hex(DispChars(s)).map(|t| t.to_u64())));
+        v.add("try_from_hex(Display in thirds)", Out::of_result(|| SpanId::try_from_hex(DispThirds(s)).map(|t| t.to_u64())));
         v.add("cast(str)", Out::of_option(|| Value::from(s).cast::<SpanId>().map(|t| t.to_u64())));
         let d = Disp(s);
         v.add("cast(display)", Out::of_option(|| Value::from_display(&d).cast::<SpanId>().map(|t| t.to_u64())));
@@ -657,6 +683,8 @@ fn parse_ts(bytes: &[u8]) -> String {
     v.add("try_from_str", Out::of_result(|| Timestamp::try_from_str(s).map(|t| ns_of_ts(&t))));
     v.add("parse", Out::of_result(|| Timestamp::parse(s).map(|t| ns_of_ts(&t))));
     v.add("parse(Display)", Out::of_result(|| Timestamp::parse(Disp(s)).map(|t| ns_of_ts(&t))));
+    v.add("parse(Display by chars)", Out::of_result(|| Timestamp::parse(DispChars(s)).map(|t| ns_of_ts(&t))));
+    v.add("parse(Display in thirds)", Out::of_result(|| Timestamp::parse(DispThirds(s)).map(|t| ns_of_ts(&t))));
     v.add("cast(str)", Out::of_option(|| Value::from(s).cast::<Timestamp>().map(|t| ns_of_ts(&t))));
     let d = Disp(s);
     v.add("cast(display)", Out::of_option(|| Value::from_display(&d).cast::<Timestamp>().map(|t| ns_of_ts(&t))));
